@@ -26,7 +26,10 @@ so "which core runs this op" is known by construction, independently of snaxc/ut
   ["if", cond, then, else]           scf.if; cond = ["p", k] (i1 argument) | ["iv", pred, c] (cmpi on the innermost index value)
   (strategy-only shapes "scoped" = alloc; ops on it; dealloc and "diamond" = producer; scf.if with consumers in either/both
    branches, optional barrier in one branch; consumer after it -- both expand to the statements above)
-  ["region", body]                   "test.op"() ({ body; "test.termop"() })  (neutral op with a region, as in upstream dispatch_regions.mlir)
+  ["region", body, mode, body2?]     mode 0 (or absent): neutral "test.op"() ({ body; "test.termop"() }) as in upstream dispatch_regions.mlir;
+                                     1 / 2: pipeline.pipeline with one / two pipeline.stage ops (regions WITHOUT terminator, executed once
+                                     in order on all cores), wrapped in a one-trip scf.for as the dialect requires
+  ["coreid", use]                    pre-existing %id = func.call @snax_cluster_core_idx() (use != 0: followed by tagged "test.op"(%id))
 
 cls is 0 (16-element values: arguments, allocs) or 1 (4-element views). A ref is an int taken modulo the number of
 visible values of that class, so every recipe builds valid IR. Buffers are one-dimensional with unit stride, so the
@@ -88,7 +91,7 @@ def _stmt_list(draw, depth, budget, flags, in_loop=False, min_stmts=1):
         kinds = ["copy"] * flags["w_copy"] + ["gen"] * flags["w_gen"] + ["view"] * flags["w_view"] + ["alloc"] * flags["w_alloc"]
         kinds += ["use"] * flags["w_use"] + ["op"] * flags["w_op"] + ["call"] * flags["w_call"] + ["bar"] * flags["w_bar"]
         kinds += ["dealloc"] * flags["w_dealloc"]
-        kinds += ["scoped"] * flags.get("w_scoped", 0) + ["callf"] * flags.get("w_callf", 0)
+        kinds += ["scoped"] * flags.get("w_scoped", 0) + ["callf"] * flags.get("w_callf", 0) + ["coreid"] * flags.get("w_coreid", 0)
         if depth > 0:
             kinds += ["diamond"] * flags.get("w_diamond", 0)
         if depth > 0:
@@ -108,6 +111,8 @@ def _stmt_list(draw, depth, budget, flags, in_loop=False, min_stmts=1):
             out.append(["alloc"])
         elif k == "callf":
             out.append(["callf", draw(st.integers(0, 1))])
+        elif k == "coreid":
+            out.append(["coreid", draw(st.integers(0, 2))])
         elif k == "scoped":
             # alloc; a few data-mover / compute ops on the fresh buffer (ref -1 = newest 16-element value); dealloc
             out.append(["alloc"])
@@ -190,7 +195,16 @@ def _stmt_list(draw, depth, budget, flags, in_loop=False, min_stmts=1):
             el = draw(st.one_of(st.just([]), _stmt_list(depth - 1, max(1, budget // 2), flags, in_loop)))
             out.append(["if", cond, th, el])
         else:
-            out.append(["region", draw(_stmt_list(depth - 1, max(1, budget // 2), flags, in_loop))])
+            mode = draw(st.sampled_from([0, 1, 1, 2]))  # 0: test.op region ending in "test.termop"; 1 / 2: pipeline with 1 / 2 terminator-less stages
+            bodies = []
+            for _ in range(2 if mode == 2 else 1):
+                body = draw(_stmt_list(depth - 1, max(1, budget // 2), flags, in_loop))
+                if mode and draw(st.integers(0, 2)) > 0:
+                    # the block has no terminator: let it END in a dispatchable op (or hold nothing else)
+                    tail = draw(st.sampled_from([["copy", 0, draw(_ref), draw(_ref)], ["gen", draw(st.sampled_from(flags["flavors"])), 0, [draw(_ref)], draw(_ref)]]))
+                    body = [tail] if draw(st.integers(0, 3)) == 0 else body + [tail]
+                bodies.append(body)
+            out.append(["region", bodies[0], mode] + bodies[1:])
     return out
 
 
@@ -202,12 +216,12 @@ def count_loops(stmts):
         elif s[0] == "if":
             n += count_loops(s[2]) + count_loops(s[3])
         elif s[0] == "region":
-            n += count_loops(s[1])
+            n += count_loops(s[1]) + (count_loops(s[3]) if len(s) > 3 else 0)
     return n
 
 
 C14_FLAGS = dict(w_copy=4, w_gen=4, w_view=2, w_alloc=1, w_use=1, w_op=2, w_call=1, w_bar=1, w_dealloc=0, w_for=3, w_if=3,
-                 w_region=1, flavors=[0, 0, 1, 2, 3, 4, 5, 5, 6, 6, 7, 8, 9, 10, 11, 12, 13, 14, 15, 16, 16, 17, 18, 19, 20, 21])
+                 w_region=2, w_coreid=1, flavors=[0, 0, 1, 2, 3, 4, 5, 5, 6, 6, 7, 8, 9, 10, 11, 12, 13, 14, 15, 16, 16, 17, 18, 19, 20, 21])
 C13_FLAGS = dict(w_copy=6, w_gen=6, w_view=3, w_alloc=2, w_use=1, w_op=0, w_call=0, w_bar=1, w_dealloc=2, w_for=8, w_if=4,
                  w_region=0, w_scoped=2, w_diamond=3, flavors=[0, 0, 0, 1, 2, 3, 5, 6, 10, 10, 11, 12, 13, 14, 14, 15, 16, 17, 18, 20, 21])
 
@@ -273,6 +287,7 @@ class Built:
         self.nargs = 0
         self.helpers: dict = {}
         self.calls_helper = False
+        self.reads_core_id = False  # pre-existing snax_cluster_core_idx call, or calls a helper (which may read it)
         self.name = "main"
 
 
@@ -282,6 +297,9 @@ ID_MAP = "affine_map<(d0) -> (d0)>"
 MODULE_HEAD = ["builtin.module {",
                '  "func.func"() <{sym_name = "ext0", function_type = (index) -> (), sym_visibility = "private"}> ({}) : () -> ()',
                '  "func.func"() <{sym_name = "ext1", function_type = (index) -> (), sym_visibility = "private"}> ({}) : () -> ()']
+
+
+CORE_IDX_DECL = '  "func.func"() <{sym_name = "snax_cluster_core_idx", function_type = () -> i32, sym_visibility = "private"}> ({}) : () -> ()'
 
 
 def build(recipe, func_name="main", tag_start=0, visibility=None, callees=()) -> Built:
@@ -473,6 +491,14 @@ def build(recipe, func_name="main", tag_start=0, visibility=None, callees=()) ->
                 v = sc.idx[s[2] % len(sc.idx)]
                 t = tag(NEUTRAL, "call")
                 out.append(f'{pad}"func.call"({v}) <{{callee = @ext{s[1] % 2}}}> {{tag = {t} : i32}} : (index) -> ()')
+            elif k == "coreid":
+                cid = fresh("cid")
+                out.append(f'{pad}{cid} = "func.call"() <{{callee = @snax_cluster_core_idx}}> : () -> i32')
+                if s[1]:
+                    t = tag(NEUTRAL, "core_id_user")
+                    out.append(f'{pad}"test.op"({cid}) {{tag = {t} : i32}} : (i32) -> ()')
+                b.features.add("pre_existing_core_idx_call")
+                b.reads_core_id = True
             elif k == "callf":
                 if callees:
                     cname, ntrip = callees[s[1] % len(callees)]
@@ -481,6 +507,7 @@ def build(recipe, func_name="main", tag_start=0, visibility=None, callees=()) ->
                     out.append(f'{pad}"func.call"({", ".join(cargs)}) <{{callee = @{cname}}}> : ({", ".join(ctys)}) -> ()')
                     b.features.add("calls_helper")
                     b.calls_helper = True
+                    b.reads_core_id = True
             elif k == "bar":
                 t = tag(NEUTRAL, "barrier")
                 out.append(f'{pad}"snax.cluster_sync_op"() {{tag = {t} : i32}} : () -> ()')
@@ -537,13 +564,37 @@ def build(recipe, func_name="main", tag_start=0, visibility=None, callees=()) ->
                 if depth >= 1:
                     b.features.add("nested")
             elif k == "region":
-                t = tag(NEUTRAL, "region")
-                body = emit(s[1], sc.child(), ind + 1, depth + 1, in_branch)
-                out.append(f'{pad}"test.op"() ({{')
-                out.extend(body)
-                out.append(f'{pad}  "test.termop"() : () -> ()')
-                out.append(f'{pad}}}) {{tag = {t} : i32}} : () -> ()')
-                b.features.add("region_op")
+                mode = s[2] if len(s) > 2 else 0
+                if mode == 0:
+                    t = tag(NEUTRAL, "region")
+                    body = emit(s[1], sc.child(), ind + 1, depth + 1, in_branch)
+                    out.append(f'{pad}"test.op"() ({{')
+                    out.extend(body)
+                    out.append(f'{pad}  "test.termop"() : () -> ()')
+                    out.append(f'{pad}}}) {{tag = {t} : i32}} : () -> ()')
+                    b.features.add("region_op")
+                else:
+                    # terminator-less blocks: pipeline.pipeline { pipeline.stage k { ... } ... } (NoTerminator ops of the snax pipeline
+                    # dialect; pipeline.pipeline must sit directly in an scf.for, so it gets a one-trip loop of its own)
+                    bodies = [s[1]] + ([s[3]] if (mode == 2 and len(s) > 3) else [])
+                    piv = fresh("pi")
+                    out.append(f'{pad}"scf.for"(%c0, %c1, %c1) ({{')
+                    out.append(f'{pad}^bb0({piv}: index):')
+                    out.append(f'{pad}  "pipeline.pipeline"() ({{')
+                    for ri, rb in enumerate(bodies):
+                        body = emit(rb, sc.child(), ind + 3, depth + 3, in_branch)
+                        out.append(f'{pad}    "pipeline.stage"() <{{index = {ri} : index, operandSegmentSizes = array<i32: 0, 0>}}> ({{')
+                        out.extend(body)
+                        if not body:
+                            t = tag(NEUTRAL, "op")
+                            out.append(f'{pad}      "test.op"() {{tag = {t} : i32}} : () -> ()')
+                        elif rb and rb[-1][0] in ("copy", "gen"):
+                            b.features.add("terminator_less_block_ends_dispatchable")
+                        out.append(f'{pad}    }}) : () -> ()')
+                    out.append(f'{pad}  }}) : () -> ()')
+                    out.append(f'{pad}  "scf.yield"() : () -> ()')
+                    out.append(f'{pad}}}) : (index, index, index) -> ()')
+                    b.features.add("pipeline_one_stage" if len(bodies) == 1 else "pipeline_two_stages")
             if this_kind is not None:
                 b.features.add(this_kind)
                 if in_branch:
@@ -608,7 +659,7 @@ def build(recipe, func_name="main", tag_start=0, visibility=None, callees=()) ->
     b.name = func_name
     b.nblocks = nb
     b.all_kinds = dict(b.kinds)
-    b.text = "\n".join(MODULE_HEAD + L + ["}"])
+    b.text = "\n".join(MODULE_HEAD + ([CORE_IDX_DECL] if "pre_existing_core_idx_call" in b.features else []) + L + ["}"])
     if nb > 1:
         b.features.add("multi_block")
     return b
@@ -635,6 +686,8 @@ def build_module(recipe) -> Built:
         b.all_kinds.update(hb.kinds)
         b.features |= hb.features
         b.features.add("helper:" + (recipe["helpers"][int(hb.name[6:])].get("vis") or "none") + ("-multi-op" if len(hb.kinds) > 1 else ""))
+    if "pre_existing_core_idx_call" in b.features:
+        lines.insert(len(MODULE_HEAD), CORE_IDX_DECL)
     lines += b.func_lines + ["}"]
     b.text = "\n".join(lines)
     if helpers:
